@@ -29,6 +29,7 @@ Definition SEC_UNCOMMITTED := BASE + 10.
 Definition SEC_RAWNODE := BASE + 11.   (* prev_ss prev_hs max_number records commit_since_index *)
 Definition SEC_CONFIG := BASE + 12.    (* knobs and static configuration *)
 Definition SEC_STORE := BASE + 13.     (* storage contents (input only; the library never writes it) *)
+Definition SEC_NEW := BASE + 14.       (* a RawNode::new case: configuration, storage, draws *)
 Definition MSG_MARK := BASE + 100.
 
 (* ------------------------------------------------------------------ *)
@@ -335,9 +336,29 @@ Definition run_call (n : rawnode) (op : N) : P (list N) :=
 
 Definition DECODE_FAIL : N := 888888.
 
+(* RawNode::new cases: [SEC_NEW] config [SEC_STORE] store snap_app draws *)
+Definition pconfig : P config :=
+  id <~ pnum ;; et <~ pnum ;; ht <~ pnum ;; ap <~ pnum ;; mspm <~ pnum ;; mi <~ pnat ;;
+  cq <~ pbool ;; pv <~ pbool ;; mine <~ pnum ;; maxe <~ pnum ;; ro <~ pnum ;;
+  sbc <~ pbool ;; ba <~ pbool ;; prio <~ pz ;; mus <~ pnum ;; mcs <~ pnum ;; lim <~ pnum ;;
+  dpf <~ pbool ;;
+  pret (mkCfg id et ht ap mspm mi cq pv mine maxe ro sbc ba prio mus mcs lim dpf).
+
+Definition run_new : P (list N) :=
+  c <~ pconfig ;; _ <~ pexpect SEC_STORE ;; sto <~ pstore ;; sapp <~ popt ;; draws <~ plist ;;
+  pret (match rn_new c sto sapp draws with
+        | Panic s => out_panic s
+        | Ok (inl e) => [SEC_RESULT; 1; e]
+        | Ok (inr n) => out_ok [] n
+        end).
+
 Definition run_node (input : list N) : list N :=
-  match (n <~ prawnode ;; draws <~ plist ;; op <~ pnum ;;
-         run_call (set_raft n ((rn_raft n) <| r_draws := draws |>)) op) input with
+  match (match input with
+         | t :: rest => if t =? SEC_NEW then run_new rest else
+             (n <~ prawnode ;; draws <~ plist ;; op <~ pnum ;;
+              run_call (set_raft n ((rn_raft n) <| r_draws := draws |>)) op) input
+         | [] => None
+         end) with
   | Some (out, []) => out
   | Some (_, _ :: _) => [DECODE_FAIL; 2]
   | None => [DECODE_FAIL; 1]
